@@ -2,10 +2,11 @@ STATELESS = {"dir": "pintracker/stateless", "pkgname": "stateless"}
 
 SPEC = {
     "go": [dict(STATELESS, files=["stateless/c05_rig_test.go", "stateless/c05_test.go"], test="TestVerifC05",
-                n_quick=320, n_thorough=12000, shards_quick=4, shards_thorough=12, timeout_quick=600)],
+                n_quick=320, n_thorough=8000, shards_quick=4, shards_thorough=64, timeout_quick=600, timeout_thorough=2400)],
     "rule": "generated: event scripts (4..14 events + a heal or drain suffix) of track/untrack/recover/recoverall/complete(ok|fault)/"
             "daemon-change over 1..4 CIDs (local, everywhere, remote, meta; recursive and direct), queue sizes 1..3, 1..2 pin workers, "
             "arbitrary initial shared state and daemon content; the next event is chosen looking at the calls in flight. "
+            "thorough tier adds every script of 5 events over one CID and of 3 events over two CIDs (two worker counts). "
             "non-trivial = an instruction issued while a call for the same CID was in flight, or an injected IPFS failure; "
             "distinct = distinct canonical JSON of the script",
     "codes": {1: "model_eq_impl (C05 tracker: status, listing, daemon, calls in flight after every event)",
